@@ -89,6 +89,7 @@ struct C20 : drv::Harness
 		p.knobs["pm"] = rng.chance(0.8) ? pm_thread : pm_coro;
 		p.knobs["pers"] = rng.chance(0.6) ? 2 : 1;
 		p.knobs["hb"] = 30;
+		p.knobs["final_reconnect"] = rng.chance(0.5);
 		int n = (int)rng.range(2, thorough ? 30 : 14);
 		for (int i = 0; i < n; ++i)
 		{
@@ -171,6 +172,22 @@ struct C20 : drv::Harness
 		if (r.v.empty())
 		{
 			m.cut_after = -1;                                    // faults have stopped
+			if (p.knob("final_reconnect") && w.alive())
+			{
+				// the history ends with a clean reconnect: the counterparty's Logon number is all the session gets to learn what it
+				// missed, the reference counterparty replays whatever is asked for, nothing else is sent. That alone must recover.
+				m.live_before = 0;
+				if (m.connected) { m.connected = false; m.logged_on = false; ++disconnects; w.settle(); w.drop_connection(); }
+				++reconnects; connect(false);
+				if (r.v.empty() && w.ses && !w.ses->terminated())
+				{
+					w.collect();
+					std::set<std::string> got; for (auto& d : w.deliv) got.insert(d.id); for (auto& d : w.ses->delivered) got.insert(d.id);
+					for (auto& id : m.all_app_ids) if (!got.count(id)) { r.fail("not_recovered_by_logon_exchange", fam, "after a clean reconnect (counterparty Logon carried " + std::to_string(m.out_next - 1) + ") and the resend exchange, application message " + id + " is still undelivered although nothing else is outstanding (session expects " + std::to_string(w.ses->nrs()) + ", counterparty next " + std::to_string(m.out_next) + ")"); break; }
+					if (r.v.empty() && w.ses->nrs() != m.out_next) r.fail("not_recovered_by_logon_exchange", fam, "after a clean reconnect (counterparty Logon carried " + std::to_string(m.out_next - 1) + ") and the resend exchange the session expects " + std::to_string(w.ses->nrs()) + " but the counterparty's next number is " + std::to_string(m.out_next));
+					sim::count("final_clean_reconnect_judged");
+				}
+			}
 			if (!m.connected) { ++reconnects; connect(false); }
 			if (r.v.empty()) { m.send("D", Peer::order_body("FINAL")); exchange(); check_alive("in the final fault-free stretch"); }
 			if (r.v.empty()) { sim::advance(50000000); exchange(); check_alive("in the final fault-free stretch"); }
@@ -203,7 +220,7 @@ struct C20 : drv::Harness
 		if (op.k == "silence") v.push_back(Op("silence", { 10 }));
 		return v;
 	}
-	std::vector<std::pair<std::string, int64_t>> knob_floor() const override { return { { "short_read_pm", 0 }, { "short_write_pm", 0 }, { "eagain_pm", 0 }, { "dribble_pm", 0 }, { "pm", 0 }, { "pers", 1 } }; }
+	std::vector<std::pair<std::string, int64_t>> knob_floor() const override { return { { "short_read_pm", 0 }, { "short_write_pm", 0 }, { "eagain_pm", 0 }, { "dribble_pm", 0 }, { "pm", 0 }, { "pers", 1 }, { "final_reconnect", 0 } }; }
 };
 
 int main(int argc, char **argv)
